@@ -9,11 +9,14 @@
  f  RF6  the scatter-integral cache is read/written atomically and only through its two accessors
  g  RF2  the append-only detection-point table never reallocates while in use: reserve(total_detectors) after every reset,
          appends inside the critical section and capped at that size
+ h  RF1  per-thread accumulators (containers indexed by omp_get_thread_num()) are reduced / reset completely: every loop over
+         them outside a region visits all slots (position-only continuation, never left early)
 """
 import re
 
 from engine.cfg import CFG
 from engine.extract import Request
+from engine.loops import describe
 from engine.tree import key, lvalue_subscripts, root_of_lvalue, written_lvalues
 
 LAZY_UNITS = [
@@ -485,6 +488,148 @@ def rule_g_append_only_table(ctx, fns):
     return n
 
 
+# ----------------------------------------------------------------------------------------------- h: per-thread accumulators
+def _subscript_root_and_index(n):
+    """X[i] / X.at(i) -> (root of X, index node)"""
+    if n.k == "CXXOperatorCallExpr" and n.op == "[]" and len(n.c) == 2:
+        return root_of_lvalue(n.c[0]), n.c[1].strip()
+    if n.k == "CXXMemberCallExpr" and (n.callee or "").endswith("::at") and len(n.c) == 2:
+        return root_of_lvalue(n.c[0]), n.c[1].strip()
+    return None, None
+
+
+def rule_h_per_thread_reduction(ctx, fns):
+    """Per-thread accumulators (containers indexed by omp_get_thread_num()) are combined after the region.  Every loop outside a
+    parallel region that walks such a container must visit ALL its slots: a counting loop 0..size()-1 (or begin()..end(), a
+    range-for, std::accumulate over begin()/end()) whose continuation depends on the position only and that is never left early.
+    Otherwise the contribution of a higher-numbered thread is lost (or survives a reset) whenever a lower-numbered one had no work."""
+    # 1. the per-thread containers: fields (per class) and locals (per function) subscripted by a thread number
+    fields, locals_ = {}, {}
+    for f in fns:
+        if f.body is None:
+            continue
+        tn = _thread_num_vars(f.body)
+        for m in f.walk():
+            r, i = _subscript_root_and_index(m)
+            if r is None:
+                continue
+            ik = key(i)
+            if ik in tn or ik == "omp_get_thread_num()":
+                if r.startswith("this."):
+                    fields.setdefault(f.cls, set()).add(r)
+                elif r.startswith("v"):
+                    locals_.setdefault((f.file, f.line, f.qn), set()).add(r)
+    # a container whose element addresses are handed out through a per-thread container is per-thread as well (PT[t] = &Y[t])
+    for f in fns:
+        if f.body is None:
+            continue
+        k = (f.file, f.line, f.qn)
+        for m in f.walk():
+            if m.k in ("BinaryOperator", "CXXOperatorCallExpr") and m.op == "=" and len(m.c) == 2:
+                r, _i = _subscript_root_and_index(m.c[0].strip())
+                rhs = m.c[1].strip()
+                if r is not None and (r in locals_.get(k, set()) or r in fields.get(f.cls, set())) and rhs.k == "UnaryOperator" and rhs.op == "&":
+                    r2, _i2 = _subscript_root_and_index(rhs.c[0].strip())
+                    if r2 is not None and r2.startswith("v"):
+                        locals_.setdefault(k, set()).add(r2)
+                    elif r2 is not None and r2.startswith("this."):
+                        fields.setdefault(f.cls, set()).add(r2)
+    n = 0
+    for f in fns:
+        if f.body is None:
+            continue
+        mine = set(fields.get(f.cls, set())) | set(locals_.get((f.file, f.line, f.qn), set()))
+        dname = {"v%d" % m.get("d"): m.get("n") for m in f.walk() if m.k == "VarDecl"}
+
+        def shown(X):
+            return dname.get(X) or X.replace("this.", "")
+
+        if not mine:
+            continue
+
+        def in_region(x):
+            return any(a.k == "OMP" and a.get("omp", "").startswith("parallel") for a in x.ancestors())
+
+        def container_of(e):
+            """root of the per-thread container a loop bound / iterator expression refers to"""
+            for m in e.walk():
+                if m.k in ("MemberExpr", "DeclRefExpr"):
+                    r = root_of_lvalue(m)
+                    if r in mine:
+                        return r
+            return None
+
+        fid = f.qn + "(" + f.sig[:30] + ")"
+        # 2a. loops
+        for lp in f.walk():
+            if lp.k not in ("ForStmt", "WhileStmt", "CXXForRangeStmt", "DoStmt") or in_region(lp):
+                continue
+            body = lp.c[-1]
+            # does the loop read elements of a per-thread container?
+            touched = set()
+            for m in body.walk():
+                r, i = _subscript_root_and_index(m)
+                if r in mine:
+                    touched.add(r)
+            hdr = [c for c in lp.c[:-1]]
+            for h in hdr:
+                r = container_of(h)
+                if r is not None and any(x.is_call() and (x.callee or "").split("::")[-1] in ("begin", "end", "cbegin", "cend") for x in h.walk()):
+                    touched.add(r)
+            if lp.k == "CXXForRangeStmt":
+                for h in hdr:
+                    r = container_of(h)
+                    if r is not None:
+                        touched.add(r)
+            for X in sorted(touched):
+                ok = False
+                det = "loop shape not recognised"
+                if lp.k == "ForStmt":
+                    d = describe(lp, names=False)
+                    init, cond, inc = lp.c[0], lp.c[1].strip(), lp.c[2].strip()
+                    if d is not None:
+                        up = d["upper"].replace("static_cast<int>", "")
+                        full = d["init"] == "0" and d["step"] == "1" and re.fullmatch(r"\(- (\(int\))?%s\.size\(\) 1\)" % re.escape(X), up) is not None
+                        # the region's own sizing call is an alternative spelling of size(): omp_get_max_threads()
+                        full = full or (d["init"] == "0" and d["step"] == "1" and up == "(- omp_get_max_threads() 1)")
+                        ok = full
+                        det = "for (i = %s; i <= %s; i += %s)" % (d["init"], d["upper"], d["step"])
+                    else:
+                        # iterator form: it = X.begin(); it != X.end(); ++it
+                        vd = [m for m in init.walk() if m.k == "VarDecl" and m.c]
+                        if len(vd) == 1:
+                            it = "v%d" % vd[0].get("d")
+                            ik = key(vd[0].c[0].strip())
+                            ck = key(cond)
+                            inck = key(inc)
+                            ok = ik in (X + ".begin()", X + ".cbegin()") and ck in ("(!= %s %s.end())" % (it, X), "(!= %s %s.cend())" % (it, X)) and inck in ("(++ %s)" % it, "(++post %s)" % it)
+                            det = "for (it = %s; %s; %s)" % (ik, ck.replace(it, "it"), inck.replace(it, "it"))
+                elif lp.k == "CXXForRangeStmt":
+                    ok = True
+                    det = "range-based for over the whole container"
+                else:
+                    det = "a %s walks the per-thread container: continuation is not position-only" % lp.k
+                # never left early
+                if ok:
+                    early = [m for m in body.walk() if m.k in ("BreakStmt", "ReturnStmt", "GotoStmt") and not any(a.k in ("ForStmt", "WhileStmt", "DoStmt", "CXXForRangeStmt", "SwitchStmt") and a is not lp and any(b is lp for b in a.ancestors()) for a in m.ancestors() if m.k == "BreakStmt")]
+                    if early:
+                        ok = False
+                        det += "; left early by a %s at line %d" % (early[0].k, early[0].line)
+                ctx.ob("C18.h-per-thread-reduction-complete", fid, "loop-over:%s@%d" % (shown(X), _ordinal([l for l in f.walk() if l.k == lp.k], lp)), ok, lp.where(), ("visits every slot of %s: " % shown(X)) + det if ok else "%s is not walked completely: %s" % (shown(X), det))
+                n += 1
+        # 2b. std::accumulate / std::for_each over the container
+        for c in f.calls():
+            if c.callee in ("std::accumulate", "std::for_each", "std::fill") and not in_region(c) and len(c.call_args()) >= 2:
+                a0, a1 = key(c.call_args()[0].strip()), key(c.call_args()[1].strip())
+                X = container_of(c.call_args()[0]) or container_of(c.call_args()[1])
+                if X is None:
+                    continue
+                ok = a0 in (X + ".begin()", X + ".cbegin()") and a1 in (X + ".end()", X + ".cend()")
+                ctx.ob("C18.h-per-thread-reduction-complete", fid, "%s-over:%s@%d" % (c.callee.split("::")[-1], shown(X), _ordinal([x for x in f.calls() if x.callee == c.callee], c)), ok, c.where(), "%s(%s, %s, ...)" % (c.callee, a0, a1))
+                n += 1
+    return n
+
+
 def thorough(ctx):
     """scan every translation unit that contains an OpenMP parallel construct (textual pre-filter only selects the
     units; the regions are found in the AST) and report regions outside the frozen region list as not analysed"""
@@ -574,6 +719,8 @@ def run(ctx):
     ng = rule_g_append_only_table(ctx, scat)
     if ng < 2:
         ctx.fail_broken("append-only table rule matched %d sites (2 confirmed by hand)" % ng)
+    nh = rule_h_per_thread_reduction(ctx, regfns)
+    ctx.require_count("C18.h-per-thread-reduction-complete", 6)
     ctx.require_count("C18.a-lazy-init", 25)
     ctx.require_count("C18.b-cache-lock", 5)
     ctx.require_count("C18.c-shared-writes", 6)
